@@ -141,6 +141,17 @@ def derive_read(rng, exons, kind, delta):
                 return None
             ex = ex[lo:hi]
             ex[-1] = (ex[-1][0], ex[-1][1] + rng.randint(100, min(gap - 30, 600)))
+    elif kind == "novel_intron_in_exon":
+        # an unannotated intron of 70-200 bp (far above the 60 bp "long deletion" cap of every preset) inside an annotated inner exon
+        # (inner exons only: a short piece split off a terminal exon is, by design, treated as a fake terminal exon)
+        cand = [i for i in range(1, n - 1) if ex[i][1] - ex[i][0] >= 160]
+        if not cand:
+            return None
+        i = rng.choice(cand)
+        a, b = ex[i]
+        gap = rng.randint(70, min(200, b - a - 80))
+        s = a + rng.randint(40, b - a - gap - 40)
+        ex = ex[:i] + [(a, s - 1), (s + gap, b)] + ex[i + 1:]
     elif kind == "intron_shift" and n >= 3:
         i = rng.randint(1, n - 2)
         sh = rng.choice([-1, 1]) * rng.randint(delta + 1, delta + 12)
@@ -159,7 +170,7 @@ def derive_read(rng, exons, kind, delta):
 
 
 READ_KINDS = ["exact", "truncated", "jitter", "terminal_left_misaligned", "terminal_right_misaligned", "terminal_both_misaligned",
-              "skipped_exon", "fake_terminal_exon", "intron_retention", "intron_shift", "novel_exon", "partial_intron_retention"]
+              "skipped_exon", "fake_terminal_exon", "intron_retention", "intron_shift", "novel_exon", "partial_intron_retention", "novel_intron_in_exon"]
 
 
 def assign(gene_info, params, read_exons, polya=(-1, -1, -1, -1)):
